@@ -128,8 +128,8 @@ CHECKS = {
              "interleaving in two deep base states, the SOCKS framing law over addresses x ports x payload lengths, and every template x value row in both "
              "directions through one open circuit, with independently parsed SOCKS and LLUDP headers.",
         note="One message shape per event class in the BFS (all 481 templates only in the single-circuit sweep); exceptions escaping datagram_received are swallowed as "
-             "asyncio's datagram transport does; the ban list is an inbound rule; an ACK flag with an empty ack list compares equal to no ACK flag; no circuit death, "
-             "viewer port change or packet-id wrap in the BFS; HOME viewer-cache scan, message.xml re-parse and multiprocessing queues neutralised by the harness."),
+             "asyncio's datagram transport does; the ban list is an inbound rule; an ACK flag with an empty ack list compares equal to no ACK flag; dead circuits carry no judged traffic (only the kill and re-open datagrams are asserted); "
+             "no viewer port change or packet-id wrap in the BFS; HOME viewer-cache scan, message.xml re-parse and multiprocessing queues neutralised by the harness."),
     "C07": dict(
         category="fault_enumeration", design_ref="DESIGN.md §4 C07",
         technique="exhaustive fault-placement enumeration up to a fault bound against a reference dispatch/ownership model, plus exhaustive op-sequence enumeration "
@@ -138,7 +138,8 @@ CHECKS = {
              "CloseCircuit}), every single behaviour of every hook slot (3 addons x handle_proxied_packet / session subscriber / region subscriber / "
              "handle_lludp_message / handle_rlv_command / command) over 14 behaviours, every slot pair over a 10-behaviour list and (thorough) every one-slot-per-addon "
              "triple is executed on the real protocol, followed by a probe datagram per direction; wire emissions are attributed to Message objects and compared with a "
-             "reference model. Separately all op sequences of length <=4 over {take, send, drop, queue, sendcopy} x 8 message variants on a bare ProxiedCircuit.",
+             "reference model. Separately all op sequences of length <=4 over {take, send, drop, queue, sendcopy} x 8 message variants on a bare ProxiedCircuit, "
+             "plus 352 async-subscription life-cycle cases (subscribe_async / wait_for left by every route) on the virtual loop.",
         note="Behaviours are armed for the message under test only; pairs/triples use representative lists; async subscribers are represented by the sync take(); "
              "ownership combinations the proxy itself rejects with RuntimeError are checked for the wire and probe clauses only and counted; only Exception subclasses "
              "are raised; the reference model follows the documented dispatch rules."),
